@@ -13,6 +13,7 @@ mod ihex;
 mod isa;
 mod mc;
 mod report;
+mod sandbox;
 mod sut;
 
 use report::Tier;
@@ -22,6 +23,9 @@ fn main() {
     if args.len() < 2 {
         eprintln!("usage: vcheck <Cxx> <quick|thorough> | replay <file> | selfcheck");
         std::process::exit(2);
+    }
+    if args[1] == "worker16" {
+        std::process::exit(sandbox::worker_main());
     }
     // Checks recurse into avra-rs on worker threads; give them room so that only C16's
     // sandboxed workers (which use the 8 MiB a CLI user gets) ever see a stack overflow.
